@@ -31,7 +31,7 @@ MANIFEST_ENTRY = {
 PROP = "C02"
 LEVEL = "proof"
 THEOREMS = ["C02_chart_sound", "C02_chart_complete", "C02_split_pieces_derivable", "C02_reference_sppf_exact",
-            "C02_glr_model_forest_only_parses"]
+            "C02_glr_model_forest_only_parses", "C02_glr_model_emitted_alternatives_wellformed"]
 META = {
     "rule": "cases = (acyclic grammar, LALR|SLR, sentence incl. layout variants); non-trivial = complete SPPF with "
             "an ambiguous span (>= 2 alternatives for one node); distinct by (grammar, tables, input)",
